@@ -268,6 +268,7 @@ def _plumbing():
         "std::sync::Arc": "new",
         "std::string::String": "new len as_str clone",
         "std::hint": "must_use",
+        "anyhow::Error": "context msg new",      # builds / annotates an error value only
     }.items():
         for m in ms.split():
             out.add(c + "::" + m)
@@ -286,6 +287,9 @@ def rule_codec_api(ctx):
             for h in family(ctx, g):
                 for c in ctx.T(h).calls():
                     if not c["decl"].ws:
+                        ga = c["t"]["f"].get("ga", [])
+                        if c["q"] in ("std::cmp::Ord::min", "std::cmp::Ord::max", "std::cmp::min", "std::cmp::max") and ga and all(h.ty(i).s == "usize" for i in ga):
+                            continue        # arithmetic on lengths / indices (usize), not on a field value
                         seen.setdefault(c["q"], (g, h, c))
         n += len(seen)
         for q, (g, h, c) in sorted(seen.items()):
